@@ -56,6 +56,7 @@ def _run(V, work, tier):
         raise MachineryError("pathfs driver failed: " + err[-2000:])
     real = {}
     sessions = []
+    hists = []
     dots = []
     ncases = 0
     nserved = 0
@@ -69,6 +70,9 @@ def _run(V, work, tier):
             continue
         if r.get("dotroot"):
             dots.append(r)
+            continue
+        if r.get("history"):
+            hists.append(r)
             continue
         nserved += 1
         k = key(r)
@@ -106,6 +110,15 @@ def _run(V, work, tier):
             V.add(None, "a file outside the root was served under the relative root %r (via %s): location %s (loading context %s) returned %s" % (r["root"], r["via"], "/".join(r["comps"]), r["ctx"], r["marker"]), r)
         elif want != r["marker"]:
             V.add(None, "under the relative root %r location %s (context %s) returned %s, the specification says %s" % (r["root"], "/".join(r["comps"]), r["ctx"], r["marker"], want), r)
+    # the same root TEXT at different moments: what is served lies inside what the text resolves to at that moment
+    INSIDE = {"dot-in-root": {"in-a", "in-main", "in-b", "in-x"}, "dot-in-out": {"out-secret", "out-oa", "out-ob"}, "dot-in-sub": {"in-b", "in-x"},
+              "cur-is-root": {"in-a", "in-main", "in-b", "in-x"}, "cur-is-out": {"out-secret", "out-oa", "out-ob"}, "cur-is-sub": {"in-b", "in-x"}}
+    for r in hists:
+        if r["marker"] and r["marker"] not in INSIDE[r["tag"]]:
+            V.add(None, "a file outside the root was served: root %r (%s) location %s returned %s" % (r["root"], r["tag"], r["loc"], r["marker"]), r)
+    if hists and not any(r["marker"] for r in hists):
+        raise MachineryError("the root-history cases served nothing")
+    V.coverage["root_history_cases"] = len(hists)
     V.coverage["relative_root_served"] = len(dots)
     V.coverage["session_loads"] = len(sessions)
     if len(sessions) < 100 or not any(r["marker"] for r in sessions):
